@@ -31,7 +31,9 @@ META = dict(
             '[0,1]^2, box sizes 3/(1,3)/(3,1) and a plus footprint, npeaks '
             'in [1, H*W]; star-finder filters: n<=3 sources, one symbolic '
             'statistic (NaN-extended) at a time with symbolic inclusive '
-            'bounds, symbolic peakmax, brightest in [1,3] or None'),
+            'bounds, symbolic peakmax, brightest in [1,3] or None; full '
+            'finder pipelines on a crowded 50x56 scene over 2^4 bound '
+            'settings x peakmax x brightest x exclude_border x xycoords'),
     assumptions=['floats as NaN-extended reals, no +-inf',
                  'data not constant (find_peaks documents a None result with '
                  'a warning for constant images)',
@@ -547,8 +549,145 @@ def _run_filters(case):
     return dict(stats=st, findings=f, samples=samples, nontrivial=cnt['n'])
 
 
+# ---- full star-finder pipelines on a concrete crowded scene ------------------
+_fs = {}
+
+
+def _finder_scene():
+    from astropy.modeling.models import Gaussian2D
+    if 'img' in _fs:
+        return _fs['img']
+    yy, xx = np.mgrid[:50, :56]
+    img = np.zeros((50, 56))
+    rng = np.random.default_rng(12)
+    srcs = [(8, 9, 90, 1.5, 1.5, 0), (20, 8, 60, 1.3, 2.4, 0.4),
+            (33, 10, 150, 1.6, 1.6, 0), (46, 12, 40, 2.6, 1.2, 1.1),
+            (12, 26, 70, 1.5, 1.5, 0), (16, 28, 65, 1.5, 1.5, 0),
+            (30, 27, 200, 1.4, 1.4, 0), (44, 30, 30, 1.5, 1.5, 0),
+            (9, 42, 55, 1.2, 1.2, 0), (27, 43, 80, 2.0, 2.0, 0),
+            (47, 44, 120, 1.5, 1.5, 0), (2.0, 30, 100, 1.5, 1.5, 0)]
+    for (x, y, a, sx, sy, t) in srcs:
+        img += Gaussian2D(a, x, y, sx, sy, theta=t)(xx, yy)
+    img += rng.normal(0, 0.8, img.shape)
+    img[25, 50] = 400.0     # hot pixel: very sharp
+    _fs['img'] = img
+    return img
+
+
+def _pipeline_check(finder, cfg):
+    from photutils.detection import DAOStarFinder, IRAFStarFinder, StarFinder
+    img = _finder_scene()
+    kw = dict(brightest=cfg['brightest'], peakmax=cfg['peakmax'],
+              exclude_border=cfg['border'])
+    xy = None
+    if cfg['xycoords']:
+        xy = np.array([(8.0, 9.0), (30.0, 27.0), (40.0, 40.0), (33.2, 9.8)])
+    if finder == 'star':
+        yy, xx = np.mgrid[-3:4, -3:4]
+        kern = np.exp(-(xx ** 2 + yy ** 2) / (2 * 1.5 ** 2))
+        if cfg['xycoords']:
+            return None
+        mk = lambda **k2: StarFinder(6.0, kern, **k2)  # noqa
+        base_kw = {}
+    else:
+        cls = DAOStarFinder if finder == 'dao' else IRAFStarFinder
+        bounds = dict(sharplo=cfg['sharplo'], sharphi=cfg['sharphi'],
+                      roundlo=cfg['roundlo'], roundhi=cfg['roundhi'])
+        mk = lambda **k2: cls(6.0, 3.5, xycoords=xy, **bounds, **k2)  # noqa
+        base_kw = {}
+    with warnings.catch_warnings():
+        warnings.simplefilter('ignore')
+        t = mk(**kw)(img)
+        full = mk(**dict(kw, brightest=None))(img)
+    if t is None:
+        if full is not None and len(full) > 0:
+            return 'None returned although sources pass every filter'
+        return None
+    n = len(t)
+    if list(t['id']) != list(range(1, n + 1)):
+        return f'ids {list(t["id"])}'
+    for c in t.colnames:
+        if t[c].dtype.kind == 'f' and not np.all(np.isfinite(t[c])):
+            return f'non-finite value in column {c}'
+    pk = 'max_value' if finder == 'star' else 'peak'
+    if cfg['peakmax'] is not None and np.any(t[pk] > cfg['peakmax']):
+        return f'{pk} above peakmax'
+    if finder != 'star':
+        if np.any(t['sharpness'] < cfg['sharplo']) or np.any(
+                t['sharpness'] > cfg['sharphi']):
+            return 'sharpness outside [sharplo, sharphi]'
+        rcols = ['roundness1', 'roundness2'] if finder == 'dao' else \
+            ['roundness']
+        for rc in rcols:
+            if np.any(t[rc] < cfg['roundlo']) or np.any(
+                    t[rc] > cfg['roundhi']):
+                return f'{rc} outside [roundlo, roundhi]'
+    if cfg['brightest'] is not None:
+        k = min(cfg['brightest'], len(full))
+        if n != k:
+            return f'{n} rows for brightest={cfg["brightest"]} of {len(full)}'
+        top = np.sort(np.asarray(full['flux']))[::-1][:k]
+        if not np.allclose(np.sort(np.asarray(t['flux']))[::-1], top):
+            return 'brightest does not keep the N largest fluxes'
+    if cfg['border']:
+        h = 3 if finder == 'star' else None
+        if h is not None:
+            x, y = np.asarray(t['xcentroid']), np.asarray(t['ycentroid'])
+            # peaks within half the kernel of the border are excluded
+            if np.any(np.round(x) < h) or np.any(np.round(x) > 55 - h) or \
+                    np.any(np.round(y) < h) or np.any(np.round(y) > 49 - h):
+                return 'source inside the excluded border'
+    if xy is not None:
+        # every returned centroid lies within the kernel of a given position
+        for x, y in zip(t['xcentroid'], t['ycentroid']):
+            if np.min(np.hypot(xy[:, 0] - x, xy[:, 1] - y)) > 4.0:
+                return (f'source at ({x:.1f},{y:.1f}) is not near any of the '
+                        f'supplied xycoords')
+        if n > len(xy):
+            return 'more sources than supplied xycoords'
+    return None
+
+
+def _run_pipeline(case):
+    cnt = dict(n=0)
+    samples = []
+    finder = case['finder']
+
+    def fn(ctx):
+        cfg = dict(sharplo=ctx.choice('sharplo', [0.2, 0.5]),
+                   sharphi=ctx.choice('sharphi', [1.0, 0.75]),
+                   roundlo=ctx.choice('roundlo', [-1.0, -0.2]),
+                   roundhi=ctx.choice('roundhi', [1.0, 0.2]),
+                   peakmax=ctx.choice('peakmax', [None, 120.0, 50.0]),
+                   brightest=ctx.choice('brightest', [None, 1, 3, 50]),
+                   border=ctx.flag('exclude_border'),
+                   xycoords=ctx.flag('xycoords'))
+        if finder == 'star' and (cfg['sharplo'] != 0.2 or cfg['sharphi'] != 1.0
+                                 or cfg['roundlo'] != -1.0
+                                 or cfg['roundhi'] != 1.0 or cfg['xycoords']):
+            return
+        ctx.stats.obligations += 1
+        cnt['n'] += 1
+        try:
+            msg = _pipeline_check(finder, cfg)
+        except Exception as e:  # noqa
+            msg = f'raised {e!r}'
+        if msg is None:
+            ctx.stats.unsat += 1
+        else:
+            ctx.stats.sat += 1
+            ctx.find(f'pipeline:{finder}:{msg.split()[0]}', f'{cfg}: {msg}',
+                     ctx.witness(), params=dict(kind='pipeline',
+                                                finder=finder, cfg=cfg))
+        if len(samples) < 2:
+            samples.append(cfg)
+
+    _, st, f = explore(fn)
+    return dict(stats=st, findings=f, samples=samples, nontrivial=cnt['n'])
+
+
 def run_case(case):
-    return dict(peaks=_run_peaks, centroid=_run_centroid,
+    return dict(pipeline=_run_pipeline, peaks=_run_peaks, centroid=_run_centroid,
                 findstars=_run_findstars,
                 filters=_run_filters)[case['kind']](case)
 
@@ -585,6 +724,8 @@ def cases(tier, seed):
     pk((1, 3), 'scalar', 'box3', 'none', border=True, twin='noborder')
     cs.append(dict(kind='centroid', name='peaks-centroid-func'))
     cs.append(dict(kind='findstars', name='findstars-footprint-border'))
+    for fd in ('dao', 'iraf', 'star'):
+        cs.append(dict(kind='pipeline', name=f'pipeline-{fd}', finder=fd))
     for finder in SPECS:
         spec = SPECS[finder]
         attrs = [b[0] for b in spec['bounds']] + [spec['peak'], 'xcentroid']
@@ -620,6 +761,12 @@ def cases(tier, seed):
 def replay(f):
     p = f['params']
     w = f['witness']
+    if p['kind'] == 'pipeline':
+        try:
+            msg = _pipeline_check(p['finder'], p['cfg'])
+        except Exception as e:  # noqa
+            msg = f'raised {e!r}'
+        return msg is not None, str(msg)
     if p['kind'] == 'centroid':
         msg = _centroid_check(tuple(p['shape']), p['foot'], p['thr'],
                               p['npeaks'])
